@@ -89,6 +89,10 @@ def run_shard(shard):
             return set_leaves(b, lambda i, a: rng.normal(size=a.shape) * 5.0)
         if mode == "corner":
             return set_leaves(b, lambda i, a: rng.choice([-50.0, 50.0], size=a.shape))
+        if mode == "huge":  # beyond exp's float64 range: softplus-type reparameterisations stay finite there, exp-type ones do not.
+            # Positive only: at raw values below about -745 softplus itself underflows to 0 (a zero row norm, 0/0), which is the
+            # float range the statement's neighbour C11 excludes (|raw| <= 50), not a defect.
+            return set_leaves(b, lambda i, a: rng.choice([400.0, 800.0, 1500.0], size=a.shape))
         raise KeyError(mode)
 
     def inputs(dim, cd, mode, rng):
@@ -130,7 +134,9 @@ def run_shard(shard):
         layer, dim, cd = cfg["layer"], cfg["dim"], cfg["cond_dim"]
         rec.count("configs")
         rec.count("layer_" + layer)
-        modes = shard.get("modes") or ["positive", ["init", "normal5", "corner"][int(chash(cfg), 16) % 3]]
+        modes = list(shard.get("modes") or ["positive", ["init", "normal5", "corner"][int(chash(cfg), 16) % 3]])
+        if layer == "BNAF":
+            modes.append("huge")
         for seed in range(shard.get("seeds", 1)):
             rng = np.random.default_rng([shard["seed"], 9, seed, int(chash(cfg), 16) % (2**31)])
             key = jr.PRNGKey(int(rng.integers(0, 2**31 - 1)))
@@ -233,6 +239,15 @@ def run_shard(shard):
                         if Jc is not None and np.any(Jc[:ud] != 0):
                             v("coupling.first_block_changed", f"{cfg} [{mode}]: the first block depends on the condition", cfg, det)
                             break
+                    elif mode == "huge":  # BNAF, positive weights of magnitude 400..1500: "whatever values the weights take" - the Jacobian must stay a number
+                        # (the diagonal may legitimately underflow to 0 through saturated activations, so only NaN is judged here)
+                        rec.count("bnaf_huge_weight_cases")
+                        if np.isnan(Jx).any() or np.isnan(YY[i]).any():
+                            v("bnaf.nan_at_huge_weights", f"{cfg} [weights 400..1500]: NaN in the output / Jacobian {Jx.tolist()}", cfg, det)
+                            break
+                        if np.any(np.triu(Jx, 1) != 0):
+                            v("bnaf.not_triangular", f"{cfg} [{mode}]: non-zero entry above the diagonal", cfg, det)
+                            break
                     else:  # BNAF
                         rec.count("forbidden_entries_checked", int(dim * (dim - 1) / 2))
                         if np.any(np.triu(Jx, 1) != 0):
@@ -270,6 +285,28 @@ def run_shard(shard):
                 if got.shape != want.shape or not np.array_equal(got, want):
                     v("mask.rank_based", f"rank_based_mask({in_r.tolist()}, {out_r.tolist()}, eq={eq}) = {got.astype(int).tolist()}, definition gives {want.astype(int).tolist()}",
                       {"helper": "rank_based_mask"})
+        # ranks of every integer dtype and of a spread that leaves the dtype's range when subtracted (the documented
+        # pattern is a comparison of the rank *values*; the property says "exactly ... for every size")
+        for dt in ("int8", "int16", "int32", "int64", "uint8", "uint16", "uint32"):
+            info = np.iinfo(dt)
+            for a, b_, eq in itertools.product((1, 3, 5), (2, 4), (False, True)):
+                rng = np.random.default_rng([a, b_, int(eq), info.bits])
+                for span in ("small", "full"):
+                    lo, hi = (max(info.min, -1), 4) if span == "small" else (int(info.min), int(info.max))
+                    in_r = rng.integers(lo, hi, size=a, endpoint=True, dtype=np.int64 if info.bits < 64 else np.int64).astype(dt)
+                    out_r = rng.integers(lo, hi, size=b_, endpoint=True, dtype=np.int64).astype(dt)
+                    if span == "full":
+                        in_r[0], out_r[0] = info.min, info.max
+                        out_r[-1] = in_r[-1]
+                    got = np.asarray(masks.rank_based_mask(jnp.asarray(in_r), jnp.asarray(out_r), eq=eq))
+                    want = np.array([[(int(o) >= int(i)) if eq else (int(o) > int(i)) for i in in_r] for o in out_r])
+                    rec.evals += 1
+                    rec.count("mask_helper_checks")
+                    rec.count("mask_rank_dtype_checks")
+                    rec.nontrivial.add(("rank", dt, span, a, b_, eq))
+                    if got.shape != want.shape or not np.array_equal(got, want):
+                        v("mask.rank_based", f"rank_based_mask({in_r.tolist()}, {out_r.tolist()}, eq={eq}) [{dt}] = {got.astype(int).tolist()}, "
+                                             f"definition gives {want.astype(int).tolist()}", {"helper": "rank_based_mask", "dtype": dt})
         for (r, c), n in itertools.product(itertools.product(range(1, 7), range(1, 7)), range(1, 6)):
             got = np.asarray(masks.block_diag_mask((r, c), n))
             want = np.kron(np.eye(n), np.ones((r, c))).astype(bool)
